@@ -715,11 +715,8 @@ class AsyncFIXConnection:
         self._journaler.set_seq_num(
             self._session, next_num_in=int(seqreset_msg[FTag.MsgSeqNum])
         )
-
-        # Set journal at new NewSeqNo
-        self._journaler.set_seq_num(
-            self._session, next_num_in=int(seqreset_msg[FTag.NewSeqNo])
-        )
+        # the journal is set at NewSeqNo in _finalize_message(), after this message
+        #  itself was journaled (journaling stores the message's own number)
 
     async def _finalize_message(self, msg: FIXMessage, raw_msg: bytes):
         """Final message processing (MsgSeqNum checks / journaling).
@@ -745,6 +742,12 @@ class AsyncFIXConnection:
         self._message_last_time = time.time()
 
         self._journaler.persist_msg(raw_msg, self._session, MessageDirection.INBOUND)
+
+        if msg.msg_type == FMsg.SEQUENCERESET:
+            # Set journal at new NewSeqNo
+            self._journaler.set_seq_num(
+                self._session, next_num_in=int(msg[FTag.NewSeqNo])
+            )
 
     async def _process_testrequest(self, testreq_msg: FIXMessage):
         """Handles TestRequest(35=1).
